@@ -711,3 +711,190 @@ Proof.
     eapply spec_bind; [apply spec_patch | intros _].
     repeat step.
 Qed.
+
+(* ------------------------------------------------------------------ functions and stages *)
+Lemma spec_process_cards bs p cards : forall ic, spec bs p p (process_cards cards ic).
+Proof.
+  induction cards as [|c r IH]; intros ic; cbn [process_cards]; [apply spec_ret|].
+  eapply spec_bind; [apply spec_frame, frame_pop_sub | intros _].
+  eapply spec_bind; [apply spec_frame, frame_push_sub | intros _].
+  eapply spec_bind; [apply process_card_ok | intros _; apply IH].
+Qed.
+
+Lemma spec_process_function bs p f : spec bs p p (process_function f).
+Proof.
+  unfold process_function.
+  eapply spec_bind; [apply spec_frame; intros s; cbn; same_tac | intros _].
+  eapply spec_bind; [apply spec_frame, frame_add_locals | intros _]. apply spec_process_cards.
+Qed.
+
+Lemma spec_compile_main bs p f : spec bs p p (compile_main f).
+Proof.
+  unfold compile_main.
+  eapply spec_bind; [apply spec_frame, frame_set_index_m | intros _].
+  eapply spec_bind; [apply spec_frame, frame_scope_begin | intros _].
+  eapply spec_bind; [apply spec_process_function | intros _].
+  eapply spec_bind; [apply spec_frame, frame_set_index_m | intros _].
+  eapply spec_bind; [apply spec_scope_end | intros _].
+  apply spec_process_leaf. reflexivity.
+Qed.
+
+Lemma spec_compile_other bs p f : spec bs p p (compile_other f).
+Proof.
+  unfold compile_other.
+  eapply spec_bind; [apply spec_frame, frame_set_index_m | intros _].
+  eapply spec_bind; [apply spec_label_insert | intros _].
+  eapply spec_bind; [apply spec_frame, frame_scope_begin | intros _].
+  eapply spec_bind; [apply spec_process_function | intros _].
+  eapply spec_bind; [apply spec_scope_end | intros _].
+  eapply spec_bind; [apply spec_push_instr; reflexivity | intros _].
+  apply spec_push_instr; reflexivity.
+Qed.
+
+Lemma spec_compile_others bs p fs : spec bs p p (compile_others fs).
+Proof.
+  induction fs as [|f r IH]; cbn [compile_others]; [apply spec_ret|].
+  eapply spec_bind; [apply spec_compile_other | intros _; exact IH].
+Qed.
+
+Lemma frame_add_function f : frame (add_function f).
+Proof.
+  intros s. unfold add_function, bind, get. destruct (sm_find (fi_name f) (cs_jump s)); cbn; [exact I|].
+  same_tac.
+Qed.
+Lemma frame_stage_1 fs : frame (stage_1 fs).
+Proof.
+  induction fs as [|f r IH]; cbn [stage_1]; [apply frame_ret|].
+  apply frame_bind; [apply frame_add_function | intros _; exact IH].
+Qed.
+
+Lemma spec_stage_2 bs p fs : spec bs p p (stage_2 fs).
+Proof.
+  destruct fs as [|f r]; cbn [stage_2]; [apply spec_ret|].
+  eapply spec_bind; [apply spec_compile_main | intros _; apply spec_compile_others].
+Qed.
+
+Lemma Inv_init d : Inv [] (init_state d).
+Proof.
+  constructor; cbn; auto.
+  - intros [|k] i z H; discriminate.
+  - intros h pos [].
+  - intros a l [].
+Qed.
+
+(* the state just before the final Exit satisfies the invariant with nothing pending *)
+Lemma compile_ir_before_exit fs d s :
+  compile_ir fs (init_state d) = ROk tt s ->
+  exists s0, Inv [] s0 /\
+             cs_code s = IExit :: cs_code s0 /\ cs_labels s = cs_labels s0 /\
+             cs_data s = cs_data s0 /\ cs_ids s = cs_ids s0 /\ cs_names s = cs_names s0 /\
+             exists l, cs_trace s = (cs_pc s0 mod two32, l) :: cs_trace s0.
+Proof.
+  intros H. destruct fs as [|f r]; [discriminate|].
+  unfold compile_ir in H.
+  assert (S12 : spec [] [] [] (stage_1 (f :: r) ;; stage_2 (f :: r))).
+  { eapply spec_bind; [apply spec_frame, frame_stage_1 | intros _; apply spec_stage_2]. }
+  pose proof (S12 (init_state d) (Inv_init d) (fun b (Hb : In b []) => match Hb with end)) as S.
+  clear S12. unfold bind in H, S.
+  destruct (stage_1 (f :: r) (init_state d)) as [[] s1| | |]; cbv beta iota in H, S; try discriminate.
+  destruct (stage_2 (f :: r) s1) as [[] s2| | |]; cbv beta iota in H, S; try discriminate.
+  destruct S as [HI2 _].
+  unfold push_instr, push_raw in H. cbn in H. injection H as <-.
+  exists s2. split; [exact HI2|]. cbn. repeat split; eauto.
+Qed.
+
+(* ------------------------------------------------------------------ from boundaries to starts *)
+Fixpoint nbytes (l : list instr) : nat :=
+  match l with [] => 0%nat | i :: r => (instr_span i + nbytes r)%nat end.
+
+Lemma bytes_nbytes l : bytes l = N.of_nat (nbytes l).
+Proof. induction l as [|i r IH]; cbn [bytes nbytes]; [reflexivity|]. unfold spanN. rewrite IH. lia. Qed.
+Lemma nbytes_app a b : nbytes (a ++ b) = (nbytes a + nbytes b)%nat.
+Proof. induction a as [|x a IH]; cbn [app nbytes]; [reflexivity | rewrite IH; lia]. Qed.
+Lemma nbytes_rev l : nbytes (rev l) = nbytes l.
+Proof. induction l as [|x l IH]; cbn [rev nbytes]; [reflexivity|]. rewrite nbytes_app, IH. cbn. lia. Qed.
+
+Lemma encode_instr_length i : length (encode_instr i) = instr_span i.
+Proof.
+  destruct i; unfold encode_instr; cbn [instr_op instr_args op_widths encode_args length];
+    rewrite ?app_length, ?le_bytes_length; reflexivity.
+Qed.
+Lemma encode_length is : length (encode is) = nbytes is.
+Proof.
+  induction is as [|i r IH]; cbn [encode flat_map nbytes]; [reflexivity|].
+  rewrite app_length, encode_instr_length. unfold encode in IH. rewrite IH. reflexivity.
+Qed.
+
+Lemma starts_snoc l x : forall p,
+  map fst (positions_from p (l ++ [x])) = map fst (positions_from p l) ++ [(p + nbytes l)%nat].
+Proof.
+  induction l as [|i r IH]; intros p; cbn [app positions_from map fst nbytes].
+  - f_equal. lia.
+  - f_equal. rewrite IH. f_equal. f_equal. lia.
+Qed.
+
+Lemma bound_is_start code : forall x k,
+  In (nbytes (skipn k code)) (map fst (positions (rev (x :: code)))).
+Proof.
+  induction code as [|y c IH]; intros x k.
+  - destruct k; cbn; auto.
+  - unfold positions. cbn [rev]. rewrite starts_snoc. apply in_or_app.
+    destruct k as [|k].
+    + right. left. cbn [skipn]. rewrite <- (nbytes_rev (y :: c)). cbn [rev]. reflexivity.
+    + left. cbn [skipn]. apply (IH y k).
+Qed.
+
+Lemma u32_to_i32_small b : (b < 2147483648)%N -> u32_to_i32 b = Z.of_N b.
+Proof.
+  intros H. unfold u32_to_i32, two32. rewrite N.mod_small by lia.
+  destruct (Z.ltb_spec (Z.of_N b) 2147483648); lia.
+Qed.
+
+(* ------------------------------------------------------------------ the theorem *)
+Theorem compile_wellformed_partial M o B :
+  compile M o = COk B ->
+  (N.of_nat (length (p_bytecode B)) < 2147483648)%N ->
+  exists is : list instr,
+    p_bytecode B = encode is /\
+    (Forall instr_ok is -> decode (p_bytecode B) = Some (positions is)) /\
+    (exists is', is = is' ++ [IExit]) /\
+    (forall i z, In i is -> jump_target i = Some z ->
+                 (0 <= z)%Z /\ In (Z.to_nat z) (map fst (positions is))) /\
+    (forall h pos, In (h, pos) (p_labels B) -> In (N.to_nat pos) (map fst (positions is))) /\
+    (forall a l, In (a, l) (p_trace B) -> In (N.to_nat a) (map fst (positions is))).
+Proof.
+  unfold compile. intros H Hlen.
+  destruct (into_ir_stream M (o_recursion_limit o)) as [e|fs]; [discriminate|].
+  destruct (compile_ir fs (init_state (o_debug o))) as [[] s| | |] eqn:E; try discriminate.
+  injection H as <-.
+  destruct (compile_ir_before_exit _ _ _ E) as (s0 & HI & Hcode & Hlab & _ & _ & _ & l0 & Htr).
+  unfold finish in *. cbn [p_bytecode p_labels p_trace] in *.
+  set (code0 := cs_code s0) in *.
+  exists (rev (cs_code s)). rewrite Hcode.
+  assert (Hsmall : (bytes code0 < 2147483648)%N).
+  { rewrite Hcode, encode_length, nbytes_rev in Hlen. cbn [nbytes] in Hlen.
+    rewrite bytes_nbytes. lia. }
+  assert (Hstart : forall b, is_bound code0 b ->
+                             In (N.to_nat b) (map fst (positions (rev (IExit :: code0))))).
+  { intros b [k ->]. rewrite bytes_nbytes, Nat2N.id. apply bound_is_start. }
+  split; [reflexivity|].
+  split; [intros Hok; apply decode_encode; exact Hok|].
+  split; [exists (rev code0); reflexivity|].
+  split.
+  { intros i z Hin Hj. apply in_rev in Hin. destruct Hin as [Hin|Hin]; [subst i; discriminate|].
+    apply In_nth_error in Hin. destruct Hin as [k Hk].
+    destruct (inv_jumps _ _ HI k i z Hk Hj) as [[b [-> Hb]]|[]].
+    pose proof (is_bound_le _ _ Hb) as Hle.
+    rewrite u32_to_i32_small by (fold code0 in Hle; lia).
+    split; [lia|]. rewrite <- Z_N_nat, N2Z.id. apply Hstart, Hb. }
+  split.
+  { intros h pos Hin. rewrite Hlab in Hin. apply Hstart. apply (inv_labels _ _ HI h pos Hin). }
+  intros a l Hin. apply in_rev in Hin. rewrite Htr in Hin.
+  assert (Hpc : cs_pc s0 = bytes code0) by apply (inv_pc _ _ HI).
+  destruct Hin as [Ha|Hin].
+  - injection Ha as <- _. rewrite Hpc. unfold two32. rewrite N.mod_small by lia.
+    apply Hstart, is_bound_end.
+  - destruct (inv_trace _ _ HI a l Hin) as [b [Hb ->]].
+    pose proof (is_bound_le _ _ Hb) as Hle. fold code0 in Hle.
+    unfold two32. rewrite N.mod_small by lia. apply Hstart, Hb.
+Qed.
